@@ -21,6 +21,10 @@ from loki.ir import (
 )
 from loki.subroutine import Subroutine
 from loki.tools.util import CaseInsensitiveDict
+from loki.ir.nodes import (
+    Section, PragmaRegion, Loop, WhileLoop, Conditional, MultiConditional,
+    TypeConditional, MaskedStatement, Forall, Associate
+)
 
 __all__ = [
     'strip_nested_dimensions',
@@ -77,11 +81,43 @@ class DataflowAnalysisAttacher(Transformer):
         if uses is None:
             uses = OrderedSet()
         visited = []
+        # Only a definition that happens on every path through the preceding
+        # nodes makes a later use of the symbol independent of earlier values
+        killed = OrderedSet()
         for i in flatten(body):
             visited += [self.visit(i, live_symbols=live|defines, **kwargs)]
-            uses |= visited[-1].uses_symbols.copy() - defines
+            uses |= visited[-1].uses_symbols.copy() - killed
             defines |= visited[-1].defines_symbols.copy()
+            killed |= self._definitely_defines(visited[-1])
         return as_tuple(visited), defines, uses
+
+    @classmethod
+    def _definitely_defines(cls, node):
+        """
+        Return the set of symbols that are defined on every path through
+        an already analysed node (or tuple of nodes).
+        """
+        if isinstance(node, tuple):
+            defines = OrderedSet()
+            for n in node:
+                defines |= cls._definitely_defines(n)
+            return defines
+        if isinstance(node, (Loop, WhileLoop, MaskedStatement, Forall)):
+            # The body may not be executed at all or only for some elements
+            return OrderedSet()
+        if isinstance(node, Conditional):
+            return cls._definitely_defines(node.body) & cls._definitely_defines(node.else_body)
+        if isinstance(node, (MultiConditional, TypeConditional)):
+            defines = cls._definitely_defines(node.else_body)
+            for b in node.bodies:
+                defines &= cls._definitely_defines(b)
+            return defines
+        if isinstance(node, Associate):
+            invert_assoc = CaseInsensitiveDict({v.name: k for k, v in node.associations})
+            return OrderedSet(invert_assoc.get(v.name, v) for v in cls._definitely_defines(node.body))
+        if isinstance(node, (Section, PragmaRegion)):
+            return cls._definitely_defines(node.body)
+        return node.defines_symbols.copy()
 
     @staticmethod
     def _symbols_from_expr(expr, condition=None):
